@@ -1264,4 +1264,190 @@ theorem appendAfter_wf {t : ObjectTree} (w : WF t) {obj arg nextTo : Nat}
     · intro x; rw [hPv]; simp [hm]
     · intro x; rw [hLa]; simp [hm]
 
+/-! ### free -/
+
+/-- the state the second half of `free(obj)` produces -/
+def pushPure (t : ObjectTree) (obj : Nat) : ObjectTree :=
+  let t2 := setAt t obj fun o => { o with opcode := pOpIntFreedObject }
+  let t3 := setAt t2 obj fun o => { o with nextSiblingIndex := t2.freeListHeadIndex }
+  { t3 with freeListHeadIndex := (slot t3 obj).index }
+
+theorem freePush_eq {t : ObjectTree} {obj : Nat} (ho : obj < t.pool.size)
+    (hfi : Fi t obj = INV) (hla : La t obj = INV) : t.freePush obj = .ok (pushPure t obj) := by
+  have h1 : (slot t obj).firstArgIndex = InvalidIndex := hfi
+  have h2 : (slot t obj).lastArgIndex = InvalidIndex := hla
+  simp only [freePush, obj_eq ho, bind, Except.bind, h1, h2, ne_eq, not_true_eq_false, or_self, if_false]
+  rw [upd_eq _ ho]; simp only []
+  rw [upd_eq _ (by simpa using ho)]; simp only []
+  rw [obj_eq (by simpa using ho)]
+  rfl
+
+theorem push_loc {t t' : ObjectTree} (w : WF t) {obj : Nat} (ho : live t obj = true)
+    (hp : P t obj = INV) (hfi : Fi t obj = INV) (hla : La t obj = INV)
+    (hlive : ∀ x, live t' x = (live t x && decide (x ≠ obj)))
+    (hsame : ∀ x, x ≠ obj → slot t' x = slot t x) :
+    ∀ i, live t' i = true → LocalP t' i := by
+  intro i hi
+  rw [hlive] at hi
+  simp only [Bool.and_eq_true, decide_eq_true_eq] at hi
+  obtain ⟨hi, hio⟩ := hi
+  have hinv : ∀ j, live t j = true → j ≠ INV := fun j hj => live_ne_INV w.size_le hj
+  have hpv : Pv t obj = INV := ((w.lP ho).det hp).1
+  have hnx : Nx t obj = INV := ((w.lP ho).det hp).2
+  have hkids : ∀ j, live t j = true → P t j ≠ obj := by
+    intro j hj e
+    have := (w.kids_mem obj ho j).2 ⟨hj, e⟩
+    obtain ⟨l, hc, ha, _⟩ := w.args_eq ho
+    rw [hfi] at hc
+    cases l with
+    | nil => simp [abs, ha] at this
+    | cons y ys => obtain ⟨e1, hy, _⟩ := hc; exact hinv _ hy e1.symm
+  have aP : ∀ x, x ≠ obj → P t' x = P t x := fun x hx => by simp [P, hsame x hx]
+  have aPv : ∀ x, x ≠ obj → Pv t' x = Pv t x := fun x hx => by simp [Pv, hsame x hx]
+  have aNx : ∀ x, x ≠ obj → Nx t' x = Nx t x := fun x hx => by simp [Nx, hsame x hx]
+  have aFi : ∀ x, x ≠ obj → Fi t' x = Fi t x := fun x hx => by simp [Fi, hsame x hx]
+  have aLa : ∀ x, x ≠ obj → La t' x = La t x := fun x hx => by simp [La, hsame x hx]
+  have L1 := fun j (hj : live t j = true) => (w.lP hj).lp
+  have L2 := fun j (hj : live t j = true) => (w.lP hj).lpv
+  have L3 := fun j (hj : live t j = true) => (w.lP hj).lnx
+  have L4 := fun j (hj : live t j = true) => (w.lP hj).lfi
+  have L5 := fun j (hj : live t j = true) => (w.lP hj).lla
+  have C1 := fun j (hj : live t j = true) => (w.lP hj).det
+  have C2 := fun j (hj : live t j = true) => (w.lP hj).pv
+  have C3 := fun j (hj : live t j = true) => (w.lP hj).nx
+  have C4 := fun j (hj : live t j = true) => (w.lP hj).first
+  have C5 := fun j (hj : live t j = true) => (w.lP hj).last
+  have C6 := fun j (hj : live t j = true) => (w.lP hj).fi
+  have C7 := fun j (hj : live t j = true) => (w.lP hj).la
+  have C8 := fun j (hj : live t j = true) => (w.lP hj).ends
+  have hl' : ∀ x, live t' x = true ↔ (live t x = true ∧ x ≠ obj) := by
+    intro x; rw [hlive]; simp
+  constructor
+  all_goals grind
+
+/-- pushing a detached, argument-less live object on the free list preserves `WF` -/
+theorem freePush_wf {t : ObjectTree} (w : WF t) {obj : Nat} (ho : live t obj = true)
+    (hp : P t obj = INV) (hfi : Fi t obj = INV) (hla : La t obj = INV) :
+    ∃ t', t.freePush obj = .ok t' ∧ WF t' ∧ t'.pool.size = t.pool.size ∧
+      (∀ x, live t' x = (live t x && decide (x ≠ obj))) ∧
+      (∀ x, x ≠ obj → slot t' x = slot t x) ∧
+      t'.freeListHeadIndex = obj ∧ Nx t' obj = t.freeListHeadIndex := by
+  have hlt := live_lt ho
+  refine ⟨pushPure t obj, freePush_eq hlt hfi hla, ?_⟩
+  have hsz : (pushPure t obj).pool.size = t.pool.size := by simp [pushPure]
+  have hslot : ∀ x, slot (pushPure t obj) x = if obj = x ∧ x < t.pool.size then
+      { slot t x with opcode := pOpIntFreedObject, nextSiblingIndex := t.freeListHeadIndex } else slot t x := by
+    intro x
+    show slot (setAt (setAt t obj fun o => { o with opcode := pOpIntFreedObject }) obj
+      fun o => { o with nextSiblingIndex := t.freeListHeadIndex }) x = _
+    rw [slot_setAt', slot_setAt']
+    simp only [size_setAt]
+    split <;> rfl
+  have hsame : ∀ x, x ≠ obj → slot (pushPure t obj) x = slot t x := by
+    intro x hx; rw [hslot]; simp [Ne.symm hx]
+  have hobj : slot (pushPure t obj) obj =
+      { slot t obj with opcode := pOpIntFreedObject, nextSiblingIndex := t.freeListHeadIndex } := by
+    rw [hslot]; simp [hlt]
+  have hlive : ∀ x, live (pushPure t obj) x = (live t x && decide (x ≠ obj)) := by
+    intro x
+    by_cases hx : x = obj
+    · subst hx
+      simp [live, hobj]
+    · simp only [live, hsz, hsame x hx, hx, ne_eq, not_false_eq_true, decide_true, Bool.and_true]
+  have hfh : (pushPure t obj).freeListHeadIndex = obj := by
+    show (slot (pushPure t obj) obj).index = obj
+    rw [hobj]; exact w.index_eq obj hlt
+  have hnxo : Nx (pushPure t obj) obj = t.freeListHeadIndex := by simp [Nx, hobj]
+  refine ⟨?_, hsz, hlive, hsame, hfh, hnxo⟩
+  have hl' : ∀ x, live (pushPure t obj) x = true ↔ (live t x = true ∧ x ≠ obj) := by
+    intro x; rw [hlive]; simp
+  have hloc := push_loc w ho hp hfi hla hlive hsame
+  generalize pushPure t obj = T at *
+  refine ⟨by rw [hsz]; exact w.size_le, ?_, fun i hl => (localOK_iff T i).2 (hloc i hl), ?_, ?_, ?_⟩
+  · intro i hi
+    by_cases hx : i = obj
+    · subst hx; rw [hobj]; exact w.index_eq i hlt
+    · rw [hsame i hx]; exact w.index_eq i (by omega)
+  · obtain ⟨rk, hrk⟩ := w.rank
+    refine ⟨rk, fun i hl hpi => ?_⟩
+    obtain ⟨hl, hx⟩ := (hl' i).1 hl
+    have : P T i = P t i := by simp [P, hsame i hx]
+    rw [this] at hpi ⊢
+    exact hrk i hl hpi
+  · obtain ⟨pos, hpos⟩ := w.order
+    refine ⟨pos, fun i hl hpi => ?_⟩
+    obtain ⟨hl, hx⟩ := (hl' i).1 hl
+    have : Nx T i = Nx t i := by simp [Nx, hsame i hx]
+    rw [this] at hpi ⊢
+    exact hpos i hl hpi
+  · obtain ⟨fl, hc, hall⟩ := w.free
+    refine ⟨obj :: fl, ?_, ?_⟩
+    · rw [hfh]
+      refine ⟨rfl, by omega, by rw [hlive]; simp, ?_⟩
+      rw [hnxo]
+      apply freeChain_congr (t := t) (by omega) fl _ _ hc
+      intro x hx
+      have hd := freeChain_dead fl _ hc x hx
+      have hxo : x ≠ obj := fun e => by rw [e, ho] at hd; cases hd
+      exact ⟨by rw [hlive, hd]; simp, by simp [Nx, hsame x hxo]⟩
+    · intro i hi hl
+      by_cases hx : i = obj
+      · simp [hx]
+      · rw [hlive] at hl
+        simp only [hx, ne_eq, not_false_eq_true, decide_true, Bool.and_true] at hl
+        exact List.mem_cons_of_mem _ (hall i (by omega) hl)
+
+/-- **free** under its contract (live, no arguments): succeeds, preserves `WF`; `obj` is unlinked
+from its parent (if any) exactly as `detach` does, dies, and becomes the head of the free list -/
+theorem free_wf {t : ObjectTree} (w : WF t) {obj : Nat} (hpre : freePre t obj = true) :
+    ∃ t', t.free obj = .ok t' ∧ WF t' ∧ t'.pool.size = t.pool.size ∧
+      (∀ x, live t' x = (live t x && decide (x ≠ obj))) ∧
+      t'.freeListHeadIndex = obj ∧ Nx t' obj = t.freeListHeadIndex ∧
+      ∃ t1, ((P t obj = INV ∧ t1 = t) ∨ (P t obj ≠ INV ∧ t.detach (P t obj) obj = .ok t1)) ∧
+        ∀ x, x ≠ obj → slot t' x = slot t1 x := by
+  simp only [freePre, Bool.and_eq_true, decide_eq_true_eq] at hpre
+  obtain ⟨⟨ho, hfi⟩, hla⟩ := hpre
+  have lpo := w.lP ho
+  have hinv : ∀ j, live t j = true → j ≠ INV := fun j hj => live_ne_INV w.size_le hj
+  by_cases hp : P t obj = INV
+  · have hd : t.freeDetach obj = .ok t := by
+      have : (slot t obj).parentIndex = InvalidIndex := hp
+      simp [freeDetach, obj_eq (live_lt ho), bind, Except.bind, this, pure, Except.pure]
+    obtain ⟨t', he, w', hsz, hlive, hsame, hfh, hnx⟩ := freePush_wf w ho hp hfi hla
+    refine ⟨t', ?_, w', hsz, hlive, hfh, hnx, t, Or.inl ⟨hp, rfl⟩, hsame⟩
+    simp only [ObjectTree.free, hd, bind, Except.bind]; exact he
+  · have hpl : live t (P t obj) = true := lpo.lp.resolve_left hp
+    have hdp : detachPre t (P t obj) obj = true := by simp [detachPre, hpl, ho]
+    obtain ⟨t1, he1, w1, hsz1, hlive1, _, hP1, hPv1, hNx1, hFi1, hLa1⟩ := detach_wf w hdp
+    have hne : P t obj ≠ obj := by
+      obtain ⟨rk, hrk⟩ := w.rank
+      intro e
+      have := hrk obj ho hp
+      rw [e] at this; omega
+    have hd : t.freeDetach obj = .ok t1 := by
+      have : ¬ (slot t obj).parentIndex = InvalidIndex := hp
+      have hl' : live t (slot t obj).parentIndex = true := hpl
+      simp only [freeDetach, obj_eq (live_lt ho), bind, Except.bind, ne_eq, this, not_false_eq_true, if_true,
+        objectAt_live hl', deref_some]
+      exact he1
+    have ho1 : live t1 obj = true := by rw [hlive1]; exact ho
+    have hp1 : P t1 obj = INV := by rw [hP1]; simp
+    have hfi1 : Fi t1 obj = INV := by rw [hFi1]; simp [Ne.symm hne, hfi]
+    have hla1 : La t1 obj = INV := by rw [hLa1]; simp [Ne.symm hne, hla]
+    obtain ⟨t', he, w', hsz, hlive, hsame, hfh, hnx⟩ := freePush_wf w1 ho1 hp1 hfi1 hla1
+    refine ⟨t', ?_, w', by omega, ?_, hfh, ?_, t1, Or.inr ⟨hp, he1⟩, hsame⟩
+    · simp only [ObjectTree.free, hd, bind, Except.bind]; exact he
+    · intro x; rw [hlive, hlive1]
+    · rw [hnx]
+      have := (detachPure_frame t (P t obj) obj).2.1
+      have e : t1 = detachPure t (P t obj) obj := by
+        have h2 := detach_eq w.size_le (live_lt hpl) (live_lt ho) lpo.lnx lpo.lpv (by
+          obtain ⟨pos, hpos⟩ := w.order
+          intro e
+          have := hpos obj ho (by rw [e]; exact hinv _ ho)
+          rw [e] at this; omega)
+        rw [he1] at h2
+        exact Except.ok.inj h2
+      rw [e]; exact this
+
 end Firefly.C13
